@@ -204,6 +204,22 @@ def run(ctx):
     ctx.ob('WHOWRITES', 'PolyphaseFilterbank.cache is written only by __init__, _reset_cache and channelize', cls.qual,
            not extra, {'writers': sorted(w), 'unexpected': sorted(extra)},
            node=(list(extra.values())[0] if extra else None), construct='.cache writers')
+    # the filterbank's own use of channelize (the noise-level estimate) must not go through the streaming cache: run with
+    # cache=True it would leave calibration noise in the cache (and consume the carried-over tail) of a stream in progress
+    n_own = 0
+    for mname, mfi in sorted(cls.methods.items()):
+        if mname == 'channelize' or not isinstance(mfi.node, ast.FunctionDef):
+            continue
+        for n in ast.walk(mfi.node):
+            if isinstance(n, ast.Call) and isinstance(n.func, ast.Attribute) and n.func.attr == 'channelize' and \
+                    isinstance(n.func.value, ast.Name) and n.func.value.id == 'self':
+                n_own += 1
+                kwv = next((k.value for k in n.keywords if k.arg == 'cache'), n.args[1] if len(n.args) > 1 else None)
+                ok = isinstance(kwv, ast.Constant) and kwv.value is False
+                ctx.ob('EFFECTS', f'{mname}: the filterbank channelises its own calibration noise with cache=False (the streaming cache '
+                       'of a stream in progress is neither consumed nor overwritten)', mfi, ok,
+                       {'call': ast.unparse(n)[:100]}, node=n)
+    ctx.require(n_own >= 1, 'PolyphaseFilterbank: no internal use of channelize found (estimate_channelized_stds anchor)')
     # the carried-over window must be the filterbank's own copy: a view of the caller's chunk would change when the caller
     # refills its buffer for the next chunk, and the chunked result would no longer equal the one-shot result
     from vstatic.effects import summaries
